@@ -322,7 +322,9 @@ pub fn generate(seed: u64, run: u64, prop: &str) -> Generated {
         tau_share: if rq.chance(0.2) { 0.5 } else { rq.uniform(0.05, 0.95) },
         max_mult: *rq.pick(&[1.0, 2.0, 3.0, 5.0, 10.0, 20.0, 100.0]),
         max_mult_share: *rq.pick(&[0.01, 0.1, 0.5, 1.0]),
-        cu: 1 + rq.below(8),
+        // sometimes exactly the width of one of the small integer ranges of the pools (2, 5, 7):
+        // "as many groups as Cu, plus one" is where off-by-one reasoning about the cap goes wrong
+        cu: if rq.chance(0.2) { *rq.pick(&[2u64, 5, 7]) } else { 1 + rq.below(8) },
     };
 
     // ---------------- instance ----------------
@@ -795,6 +797,13 @@ pub fn generate(seed: u64, run: u64, prop: &str) -> Generated {
                 continue;
             }
             keys.push(KeySpec { expr: q.clone(), alias: format!("k{}", keys.len()), public_set: public, nullable: c.optional, ambiguous });
+        }
+        // sometimes a single private key over a small, non-nullable integer range
+        if profile.need_private_key && rg.chance(0.25) {
+            if let Some((q, _)) = keyable.iter().find(|(q, c)| matches!(c.ty, ColType::IntRange { lo, hi } if hi - lo <= 8 && hi > lo) && !c.optional && !where_.iter().any(|w| w.contains(q.as_str()))) {
+                keys.clear();
+                keys.push(KeySpec { expr: q.clone(), alias: "k0".into(), public_set: None, nullable: false, ambiguous: false });
+            }
         }
         if profile.need_private_key && !keys.iter().any(|k| k.public_set.is_none()) {
             if let Some((q, _)) = keyable.iter().find(|(q, c)| public_set_of(&c.ty).is_none() && !in_list_cols.iter().any(|(qq, _)| qq == q)) {
